@@ -86,7 +86,7 @@ def run(ctx, rep, tier):
     int_accepts = pid.handled() - banned
     # string assignment arm accepts string_const through an expr argument
     pas = ast.unparse(model.func("ParseCtx._parse_assign_stmt"))
-    if "sub_expr.data != 'string_const'" in pas and "_lookup_named_entity(MacroArgumentKind.EXPR" in pas:
+    if model.has("ParseCtx._parse_assign_stmt", "sub_expr.data != 'string_const'") and model.has("ParseCtx._parse_assign_stmt", "_lookup_named_entity(MacroArgumentKind.EXPR"):
         int_accepts = int_accepts | {"string_const"}
     rep.check(table.get("INTEXPR") == int_accepts, "C13.b", "Macro.bind_arguments_for", "INTEXPR admits exactly what the expression consumers accept",
               f"`expr` parameters admit {sorted(table.get('INTEXPR', []))} but consumers accept {sorted(int_accepts)} (difference {sorted(int_accepts ^ table.get('INTEXPR', set()))})")
@@ -157,7 +157,7 @@ def run(ctx, rep, tier):
               "nothing bounds the chain of active macros: `macro a() { a(); }` recurses until RecursionError (an internal exception, not a diagnosed error)")
     # the expansion recursion exists as analysed
     ps = ast.unparse(model.func("ParseCtx._parse_stmt"))
-    rep.check("return self._parse_macro_call(stmt, referenced, stmt.children[1:])" in ps, "C13.d", "ParseCtx._parse_stmt", "call statement expands the macro with the call's argument trees", "macro call site changed")
+    rep.check(model.has("ParseCtx._parse_stmt", "return self._parse_macro_call(stmt, referenced, stmt.children[1:])"), "C13.d", "ParseCtx._parse_stmt", "call statement expands the macro with the call's argument trees", "macro call site changed")
 
     # ------------------------------------------------------------------ C13.e lookup
     rep.rule("C13.e", "lookup scans the whole frame stack innermost-first before global tables; early binding = identifier kinds; substituted expressions keep the destination type")
@@ -179,7 +179,7 @@ def run(ctx, rep, tier):
     kinds = set(re.findall(r"MacroArgumentKind\.(\w+)", ast.unparse(seb)))
     rep.check(kinds == kinds_produced - {"MATCH", "INTEXPR"}, "C13.e", "MacroArgument.should_early_bind", "early binding = identifier kinds", f"early-bound kinds {sorted(kinds)}")
     glt = ast.unparse(model.func("MacroArgument.get_lookup_type"))
-    rep.check("self.kind in (MacroArgumentKind.MATCH, MacroArgumentKind.INTEXPR)" in glt and "return MacroArgumentKind.EXPR" in glt and "return self.kind" in glt, "C13.e",
+    rep.check(model.has("MacroArgument.get_lookup_type", "self.kind in (MacroArgumentKind.MATCH, MacroArgumentKind.INTEXPR)") and model.has("MacroArgument.get_lookup_type", "return MacroArgumentKind.EXPR") and model.has("MacroArgument.get_lookup_type", "return self.kind"), "C13.e",
               "MacroArgument.get_lookup_type", "match/expr arguments share the EXPR namespace", "lookup-type mapping changed")
     # substituted expression arguments keep into_storage
     arm = pid.arm_for("identifier_const")
